@@ -416,4 +416,161 @@ theorem pairUp_interleave (l : List (Bytes × Bytes)) :
   | nil => rfl
   | cons p ps ih => simp [List.flatMap_cons, pairUp, ih]
 
+/-! ### bracket scanner: splunk and loki -/
+
+theorem scanGo_append (v : Bytes) :
+    ∀ (s : SSt) (acc w rest : Bytes), scanGo s acc v = some (w, []) → scanGo s acc (v ++ rest) = some (w, rest) := by
+  induction v with
+  | nil => intro s acc w rest h; simp [scanGo] at h
+  | cons b bs ih =>
+    intro s acc w rest h
+    simp only [List.cons_append]
+    unfold scanGo at h ⊢
+    cases hs : sstep s b with
+    | none => simp [hs] at h
+    | some s' =>
+      simp only [hs] at h ⊢
+      by_cases hd : s'.depth = 0
+      · simp [hd] at h ⊢
+        obtain ⟨h1, h2⟩ := h
+        subst h2
+        simp [h1]
+      · simp [hd] at h ⊢
+        exact ih s' _ w rest h
+
+theorem scanOne_append (v rest : Bytes) (h : wellBracketed v = true) : scanOne (v ++ rest) = some (v, rest) := by
+  unfold wellBracketed at h
+  have h' : scanOne v = some (v, []) := by simpa using h
+  cases v with
+  | nil => simp [scanOne] at h'
+  | cons b bs =>
+    simp only [List.cons_append]
+    simp only [scanOne] at h' ⊢
+    by_cases hb : b = 123 ∨ b = 91
+    · rw [if_pos hb] at h' ⊢
+      exact scanGo_append bs _ _ _ rest h'
+    · rw [if_neg hb] at h'; simp at h'
+
+theorem wellBracketed_ne_nil (v : Bytes) (h : wellBracketed v = true) : v ≠ [] := by
+  intro hv; subst hv; simp [wellBracketed, scanOne] at h
+
+theorem unframeConcat_frames (vs : List Bytes) (h : ∀ v ∈ vs, wellBracketed v = true) :
+    ∀ fuel, vs.length ≤ fuel → unframeConcat fuel vs.flatten = some vs := by
+  induction vs with
+  | nil => intro fuel _; cases fuel <;> simp [unframeConcat]
+  | cons v vs ih =>
+    intro fuel hf
+    have hv := h v (by simp)
+    have hne := wellBracketed_ne_nil v hv
+    cases fuel with
+    | zero => simp at hf
+    | succ n =>
+      simp only [List.flatten_cons]
+      cases hvv : v ++ vs.flatten with
+      | nil => simp at hvv; exact absurd hvv.1 hne
+      | cons x xs =>
+        unfold unframeConcat
+        rw [← hvv, scanOne_append v _ hv]
+        simp [ih (fun y hy => h y (by simp [hy])) n (by simpa using hf)]
+
+theorem length_le_flatten (vs : List Bytes) (h : ∀ v ∈ vs, v ≠ []) : vs.length ≤ vs.flatten.length := by
+  induction vs with
+  | nil => simp
+  | cons v vs ih =>
+    have : 1 ≤ v.length := by
+      cases v with
+      | nil => exact absurd rfl (h [] (by simp))
+      | cons _ _ => simp
+    have := ih (fun y hy => h y (by simp [hy]))
+    simp only [List.length_cons, List.flatten_cons, List.length_append]
+    omega
+
+
+theorem wellBracketed_head (v : Bytes) (h : wellBracketed v = true) : ∃ b bs, v = b :: bs ∧ (b = 123 ∨ b = 91) := by
+  cases v with
+  | nil => simp [wellBracketed, scanOne] at h
+  | cons b bs =>
+    refine ⟨b, bs, rfl, ?_⟩
+    by_cases hb : b = 123 ∨ b = 91
+    · exact hb
+    · simp [wellBracketed, scanOne, hb] at h
+
+theorem lokiEntries_frames (es : List Bytes) (hne : es ≠ []) (h : ∀ v ∈ es, wellBracketed v = true) :
+    ∀ fuel, es.length ≤ fuel → lokiEntries fuel (joinComma es ++ lokiSuffix) = some es := by
+  induction es with
+  | nil => exact absurd rfl hne
+  | cons v vs ih =>
+    intro fuel hf
+    have hv := h v (by simp)
+    cases fuel with
+    | zero => simp at hf
+    | succ n =>
+      cases vs with
+      | nil =>
+        simp only [joinComma]
+        unfold lokiEntries
+        rw [scanOne_append v _ hv]
+        simp
+      | cons w ws =>
+        simp only [joinComma, List.append_assoc]
+        unfold lokiEntries
+        rw [scanOne_append v _ hv]
+        have hne' : (lit "," ++ (joinComma (w :: ws) ++ lokiSuffix)) ≠ lokiSuffix := by
+          simp [lit, lokiSuffix]
+        simp only [hne', if_false]
+        have : lit "," ++ (joinComma (w :: ws) ++ lokiSuffix) = 44 :: (joinComma (w :: ws) ++ lokiSuffix) := by
+          simp [lit]
+        rw [this]
+        simp only
+        rw [ih (by simp) (fun y hy => h y (by simp [hy])) n (by simpa using hf)]
+        simp
+
+theorem length_le_joinComma (es : List Bytes) (h : ∀ v ∈ es, v ≠ []) : es.length ≤ (joinComma es).length + 1 := by
+  induction es with
+  | nil => simp
+  | cons v vs ih =>
+    have hv : 1 ≤ v.length := by
+      cases v with
+      | nil => exact absurd rfl (h [] (by simp))
+      | cons _ _ => simp
+    have := ih (fun y hy => h y (by simp [hy]))
+    cases vs with
+    | nil => simp [joinComma]
+    | cons w ws =>
+      simp only [joinComma, List.length_cons, List.length_append] at this ⊢
+      omega
+
+theorem unframeLoki_body (labels : Bytes) (es : List Bytes) (h : ∀ v ∈ es, wellBracketed v = true) :
+    unframeLoki labels (lokiBody labels es) = some es := by
+  have hb : lokiBody labels es = lokiPrefix labels ++ (joinComma es ++ lokiSuffix) := by
+    simp [lokiBody, lokiPrefix, lokiSuffix, List.append_assoc]
+  unfold unframeLoki
+  rw [hb, stripPrefix_append]
+  simp only
+  cases es with
+  | nil => simp [joinComma]
+  | cons v vs =>
+    have hv := h v (by simp)
+    obtain ⟨b, bs, hvb, hb'⟩ := wellBracketed_head v hv
+    have hne : joinComma (v :: vs) ++ lokiSuffix ≠ lokiSuffix := by
+      intro heq
+      have hh : (joinComma (v :: vs) ++ lokiSuffix).head? = lokiSuffix.head? := by rw [heq]
+      cases vs with
+      | nil => subst hvb; simp [joinComma, lokiSuffix, lit] at hh; rcases hb' with h | h <;> simp [h] at hh
+      | cons w ws => subst hvb; simp [joinComma, lokiSuffix, lit] at hh; rcases hb' with h | h <;> simp [h] at hh
+    rw [if_neg hne]
+    apply lokiEntries_frames (v :: vs) (by simp) h
+    have h1 := length_le_joinComma (v :: vs) (fun y hy => wellBracketed_ne_nil y (h y hy))
+    simp only [List.length_append] at h1 ⊢
+    omega
+
+
+theorem forEach_collect (batch : List Ev) (acc : List Ev) :
+    forEach (fun acc e => acc ++ [e]) batch acc = acc ++ deliverable batch := by
+  rw [forEach_eq_foldl]
+  generalize deliverable batch = l
+  induction l generalizing acc with
+  | nil => simp
+  | cons e es ih => simp [List.foldl_cons, ih]
+
 end FileD.Payload
